@@ -69,6 +69,7 @@ type c01Case struct {
 	Refs   []int   `json:"refs"`   // bam mode: reference lengths
 	Rname  int     `json:"rname"`  // bam mode: reference name length
 	Hbytes bool    `json:"hbytes"` // include full header bytes of every member
+	Failw  []int   `json:"failw"`  // indices (0-based) of underlying Write calls that are refused (transient faults)
 	Tmpdir string  `json:"tmpdir"` // haseof mode: directory for the *os.File variant
 	Levels []int   `json:"levels"` // probe mode
 }
@@ -110,7 +111,12 @@ type c01Sink struct {
 	wsizes     []int
 	rng        *rand.Rand
 	startedCtr *int64
+	failAt     map[int]bool
+	calls      int
+	refused    int
 }
+
+var c01ErrInjected = errors.New("c01: injected write fault")
 
 func (s *c01Sink) Write(p []byte) (int, error) {
 	if s.rng != nil {
@@ -126,6 +132,13 @@ func (s *c01Sink) Write(p []byte) (int, error) {
 		}
 	}
 	s.mu.Lock()
+	call := s.calls
+	s.calls++
+	if s.failAt[call] {
+		s.refused++
+		s.mu.Unlock()
+		return 0, c01ErrInjected
+	}
 	s.buf = append(s.buf, p...)
 	s.wlens = append(s.wlens, len(s.buf))
 	s.wsizes = append(s.wsizes, len(p))
@@ -377,6 +390,8 @@ func c01ErrClass(err error) int {
 		return 1
 	case errors.Is(err, bgzf.ErrBlockOverflow):
 		return 5
+	case errors.Is(err, c01ErrInjected):
+		return 9
 	}
 	return 2
 }
@@ -423,6 +438,8 @@ func c01SetHeader(w *bgzf.Writer, h *c01Hdr) {
 }
 
 type c01Run struct {
+	refused     int
+	calls       int
 	out         []byte
 	res         [][2]int
 	apiSnap     []int
@@ -440,6 +457,12 @@ func c01Exec(c *c01Case, wc int, delay int64) (*c01Run, error) {
 	sink := &c01Sink{startedCtr: &startedCtr}
 	if delay != 0 {
 		sink.rng = rand.New(rand.NewSource(delay))
+	}
+	if len(c.Failw) > 0 {
+		sink.failAt = map[int]bool{}
+		for _, k := range c.Failw {
+			sink.failAt[k] = true
+		}
 	}
 	w, err := bgzf.NewWriterLevel(sink, c.Level, wc)
 	if err != nil {
@@ -494,6 +517,9 @@ func c01Exec(c *c01Case, wc int, delay int64) (*c01Run, error) {
 		r.wlens = sink.wlens
 		r.started = sink.started
 	}
+	sink.mu.Lock()
+	r.refused, r.calls = sink.refused, sink.calls
+	sink.mu.Unlock()
 	return r, nil
 }
 
@@ -570,6 +596,8 @@ func c01(raw json.RawMessage) interface{} {
 	}
 	o := map[string]interface{}{}
 	o["res"] = r.res
+	o["refused"] = r.refused
+	o["wcalls"] = r.calls
 	o["closed_ok"] = r.closedOK
 	o["close_called"] = r.closeCalled
 	o["out_len"] = len(r.out)
